@@ -56,6 +56,9 @@ ASSUMPTIONS = ['files are the ones the library writes (both stored matrix views 
                'requests are sets of text ids (no repeated id); ids and values are in the C01 domain',
                'the output of subset-table is judged by loading it with parse_table']
 
+from . import regen as _regen
+regenerate = _regen.hook(TRUSTED, ['slicer'])   # py2v (string mode): regenerate coq/Gen/SlicerGen.v from biom/parse.py first
+
 AX = {'observation': 0, 'sample': 1}
 OTHER = {'observation': 'sample', 'sample': 'observation'}
 SERS = ['lib', 'dumps', 'indent', 'compact']
